@@ -112,3 +112,37 @@ Theorem C05_sum_after_selectmany_refuted :
   run_job ex_sum_after_selectmany [ev_none] = JDone [ [[VUninit]] ].
 Proof. exact ex_sum_after_selectmany_witness. Qed.
 Print Assumptions C05_sum_after_selectmany_refuted.
+
+(* ---------- for ALL queries of fragment F1 (not only per checked program) ---------- *)
+(* Model/FragQuery.v: ds[.Where(cond)].Select(ROW) | ds[.Where(cond)].SelectMany(coll[.Where(p)].Select(PROW)).
+   For every such query, every first index and every list of events on which the query is defined, the job the
+   fragment translator emits (text-identical to the implementation's, checked on every run by C01) writes for
+   each event exactly the rows that event denotes on its own - whatever preceded it -, in any order the same
+   multiset of per-event row lists, and split across jobs the concatenation. *)
+From FV Require Import Model.FragTranslate Model.FragQuery Proofs.FragQueryProofs.
+
+Theorem C05_fragment_rows_per_event :
+  forall (bk : FragTranslate.backend) (q : query) (n0 : nat) (evs : list event),
+  query_ok q = true -> NoDup (bmems (q_body q) (body_start q n0)) ->
+  (forall ev, In ev evs -> qdefined q ev) ->
+  run_job (prog_q bk q n0) evs = JDone (map (qrows q) evs).
+Proof. exact frag_job_rows. Qed.
+Print Assumptions C05_fragment_rows_per_event.
+
+Theorem C05_fragment_permutation :
+  forall (bk : FragTranslate.backend) (q : query) (n0 : nat) (evs evs' : list event),
+  query_ok q = true -> NoDup (bmems (q_body q) (body_start q n0)) ->
+  (forall ev, In ev evs -> qdefined q ev) -> Permutation evs evs' ->
+  exists rss rss', run_job (prog_q bk q n0) evs = JDone rss /\ run_job (prog_q bk q n0) evs' = JDone rss' /\
+                   Permutation rss rss'.
+Proof. exact frag_job_permutation. Qed.
+Print Assumptions C05_fragment_permutation.
+
+Theorem C05_fragment_split :
+  forall (bk : FragTranslate.backend) (q : query) (n0 : nat) (evs1 evs2 : list event),
+  query_ok q = true -> NoDup (bmems (q_body q) (body_start q n0)) ->
+  (forall ev, In ev (evs1 ++ evs2) -> qdefined q ev) ->
+  exists r1 r2, run_job (prog_q bk q n0) evs1 = JDone r1 /\ run_job (prog_q bk q n0) evs2 = JDone r2 /\
+                run_job (prog_q bk q n0) (evs1 ++ evs2) = JDone (r1 ++ r2).
+Proof. exact frag_job_split. Qed.
+Print Assumptions C05_fragment_split.
